@@ -1,138 +1,13 @@
 /-
-  C15 - abs / repOk as list statements, and the encoder of NodeM prints the canonical text of abs.
+  C15 - the encoder of NodeM prints the canonical text of abs.
 -/
-import SonicSpec.Proofs.AstList
+import SonicSpec.Proofs.AstIndex
 set_option linter.unusedSimpArgs false
 namespace SonicSpec.Ast
-theorem absElems_eq : ∀ st : List NodeM, absElems st = (st.filter NodeM.live).map NodeM.abs
-  | [] => by simp [absElems]
-  | x :: xs => by
-    unfold absElems
-    by_cases h : x.live <;> simp [h, List.filter_cons, absElems_eq xs]
-
-theorem absPairs_eq : ∀ st : List PairM,
-    absPairs st = (st.filter pairLive).map (fun p => (p.2.1, p.2.2.abs))
-  | [] => by simp [absPairs]
-  | (h, k, v) :: xs => by
-    unfold absPairs
-    by_cases hv : v.live <;> simp [hv, List.filter_cons, pairLive, absPairs_eq xs]
-
-theorem absElems_append (a b : List NodeM) : absElems (a ++ b) = absElems a ++ absElems b := by
-  simp [absElems_eq]
-
-theorem absPairs_append (a b : List PairM) : absPairs (a ++ b) = absPairs a ++ absPairs b := by
-  simp [absPairs_eq]
-
-theorem repElems_iff : ∀ st : List NodeM,
-    repElems st = true ↔ ∀ x ∈ st, x.live = true → x.repOk = true
-  | [] => by simp [repElems]
-  | x :: xs => by
-    unfold repElems
-    rw [Bool.and_eq_true, repElems_iff xs]
-    by_cases h : x.live <;> simp [h]
-
-theorem repPairs_iff : ∀ st : List PairM,
-    repPairs st = true ↔ ∀ p ∈ st, (pairLive p = true → p.2.2.repOk = true) ∧ (pairLive p = false → p.2.1 = [])
-  | [] => by simp [repPairs]
-  | (h, k, v) :: xs => by
-    unfold repPairs
-    rw [Bool.and_eq_true, repPairs_iff xs]
-    by_cases hv : v.live <;> simp [hv, pairLive, List.isEmpty_iff]
-
-theorem allLiveElems_iff : ∀ st : List NodeM, allLiveElems st = true ↔ ∀ x ∈ st, x.live = true
-  | [] => by simp [allLiveElems]
-  | x :: xs => by
-    unfold allLiveElems
-    rw [Bool.and_eq_true, allLiveElems_iff xs]; simp
-
-theorem allLivePairs_iff : ∀ st : List PairM, allLivePairs st = true ↔ ∀ p ∈ st, pairLive p = true
-  | [] => by simp [allLivePairs]
-  | (h, k, v) :: xs => by
-    unfold allLivePairs
-    rw [Bool.and_eq_true, allLivePairs_iff xs]; simp [pairLive]
-
-theorem canonList_eq : ∀ xs : List Tree, canonList xs = xs.map Tree.canon
-  | [] => by simp [canonList]
-  | x :: xs => by simp [canonList, canonList_eq xs]
-
-theorem canonPairs_eq : ∀ kvs : List (Key × Tree),
-    canonPairs kvs = kvs.map (fun kv => canonStr kv.1 ++ 58 :: kv.2.canon)
-  | [] => by simp [canonPairs]
-  | (k, v) :: kvs => by simp [canonPairs, canonPairs_eq kvs]
-
 
 theorem encode_live : ∀ n : NodeM, n.live = true → n.encode.2.live = true := by
   intro n h
   cases n <;> simp [NodeM.encode, NodeM.live, mkObject] at h ⊢
-
-theorem raw_elems_abs (rest : List Tree) :
-    absElems (rest.map (fun v => NodeM.raw v false)) = rest := by
-  induction rest with
-  | nil => simp [absElems]
-  | cons x xs ih => simp [absElems, NodeM.live, NodeM.abs, ih]
-
-theorem raw_pairs_abs (rest : List (Key × Tree)) : absPairs (rest.map rawPair) = rest := by
-  induction rest with
-  | nil => simp [absPairs]
-  | cons x xs ih =>
-    obtain ⟨k, v⟩ := x
-    simp [absPairs, rawPair, mkPair, NodeM.live, NodeM.abs, ih]
-
-theorem countLive_append {α : Type} (live : α → Bool) (a b : List α) :
-    countLive live (a ++ b) = countLive live a + countLive live b := by
-  simp [countLive]
-
-theorem countLive_all {α : Type} (live : α → Bool) (a : List α) (h : ∀ x ∈ a, live x = true) :
-    countLive live a = a.length := by
-  simp [countLive, List.filter_eq_self.mpr h]
-
-theorem countLive_of_map {α β : Type} (la : α → Bool) (lb : β → Bool) (a : List α) (b : List β)
-    (h : a.map la = b.map lb) : countLive la a = countLive lb b := by
-  have e1 : countLive la a = ((a.map la).filter id).length := by
-    rw [List.filter_map]; simp [countLive]
-  have e2 : countLive lb b = ((b.map lb).filter id).length := by
-    rw [List.filter_map]; simp [countLive]
-  rw [e1, e2, h]
-
-theorem repElems_append (a b : List NodeM) : repElems (a ++ b) = (repElems a && repElems b) := by
-  induction a with
-  | nil => simp [repElems]
-  | cons x xs ih => simp [repElems, ih, Bool.and_assoc]
-
-theorem repPairs_append (a b : List PairM) : repPairs (a ++ b) = (repPairs a && repPairs b) := by
-  induction a with
-  | nil => simp [repPairs]
-  | cons x xs ih =>
-    obtain ⟨h, k, v⟩ := x
-    simp [repPairs, ih, Bool.and_assoc]
-
-theorem repElems_raw (rest : List Tree) : repElems (rest.map (fun v => NodeM.raw v false)) = true := by
-  induction rest with
-  | nil => simp [repElems]
-  | cons x xs ih => simp [repElems, NodeM.live, NodeM.repOk, ih]
-
-theorem repPairs_raw (rest : List (Key × Tree)) : repPairs (rest.map rawPair) = true := by
-  induction rest with
-  | nil => simp [repPairs]
-  | cons x xs ih =>
-    obtain ⟨k, v⟩ := x
-    simp [repPairs, rawPair, mkPair, NodeM.live, NodeM.repOk, ih]
-
-theorem countLive_raw_elems (rest : List Tree) :
-    countLive NodeM.live (rest.map (fun v => NodeM.raw v false)) = rest.length := by
-  rw [countLive_all]; simp
-  intro x hx; simp at hx; obtain ⟨v, _, rfl⟩ := hx; rfl
-
-theorem countLive_raw_pairs (rest : List (Key × Tree)) :
-    countLive pairLive (rest.map rawPair) = rest.length := by
-  rw [countLive_all]; simp
-  intro x hx; simp at hx; obtain ⟨k, v, _, rfl⟩ := hx; rfl
-
-theorem canonList_append (a b : List Tree) : canonList (a ++ b) = canonList a ++ canonList b := by
-  simp [canonList_eq]
-
-theorem canonPairs_append (a b : List (Key × Tree)) : canonPairs (a ++ b) = canonPairs a ++ canonPairs b := by
-  simp [canonPairs_eq]
 
 mutual
 theorem encode_spec : ∀ n : NodeM, n.repOk = true →
@@ -161,23 +36,28 @@ theorem encode_spec : ∀ n : NodeM, n.repOk = true →
       countLive_raw_elems, Bool.true_and, decide_true, and_self]
   | .obj l st ix, h => by
     simp only [NodeM.repOk, Bool.and_eq_true, decide_eq_true_eq] at h
-    obtain ⟨h1, h2, h3, h4⟩ := encodePairs_spec st h.1
-    simp only [NodeM.encode, NodeM.abs, NodeM.repOk, Tree.canon, h1, h2, h3, Bool.true_and,
+    obtain ⟨⟨hr, hl⟩, hix⟩ := h
+    obtain ⟨h1, h2, h3, h4⟩ := encodePairs_spec st hr
+    have hix' : ixOk (encodePairs st).2 ix = true := by rw [ixOk_congr _ _ ix h4]; exact hix
+    simp only [NodeM.encode, NodeM.abs, NodeM.repOk, Tree.canon, h1, h2, h3, hix', Bool.true_and, Bool.and_true,
       decide_eq_true_eq, true_and]
-    rw [h.2]; exact (countLive_of_map _ _ _ _ h4).symm
+    rw [hl]; exact (countLive_of_map _ _ _ _ (skel_live _ _ h4)).symm
   | .objLazy pre rest, h => by
     simp only [NodeM.repOk, Bool.and_eq_true] at h
     obtain ⟨⟨hr, hl⟩, _⟩ := h
     obtain ⟨h1, h2, h3, h4⟩ := encodePairs_spec pre hr
     have hall := (allLivePairs_iff pre).mp hl
-    have hc : countLive pairLive (encodePairs pre).2 = pre.length := by
-      rw [countLive_of_map _ pairLive _ pre h4, countLive_all _ _ hall]
-    have hlen : (encodePairs pre).2.length = pre.length := by
-      have := congrArg List.length h4; simpa using this
-    simp only [NodeM.encode, mkObject, NodeM.abs, NodeM.repOk, Tree.canon, h1, canonPairs_append,
-      canonPairs_eq rest, absPairs_append, h2, raw_pairs_abs, repPairs_append, h3, repPairs_raw,
-      countLive_append, hc, countLive_raw_pairs, Bool.true_and, List.length_append, List.length_map,
-      hlen, decide_true, and_self]
+    have hall' := allLive_of_map _ _ (skel_live _ _ h4) hall
+    have hr' : repPairs ((encodePairs pre).2 ++ rest.map rawPair) = true := by
+      simp [repPairs_append, h3, repPairs_raw]
+    have hl' : ∀ p ∈ (encodePairs pre).2 ++ rest.map rawPair, pairLive p = true := by
+      intro p hp
+      rcases List.mem_append.mp hp with hp | hp
+      · exact hall' p hp
+      · simp at hp; obtain ⟨k, v, _, rfl⟩ := hp; rfl
+    obtain ⟨m1, m2⟩ := mkObject_spec _ hr' hl'
+    simp only [NodeM.encode, m1, m2, NodeM.abs, Tree.canon, h1, canonPairs_append, canonPairs_eq rest,
+      absPairs_append, h2, raw_pairs_abs, and_self]
 theorem encodeElems_spec : ∀ st : List NodeM, repElems st = true →
     (encodeElems st).1 = canonList (absElems st) ∧ absElems (encodeElems st).2 = absElems st ∧
     repElems (encodeElems st).2 = true ∧ (encodeElems st).2.map NodeM.live = st.map NodeM.live
@@ -195,20 +75,20 @@ theorem encodeElems_spec : ∀ st : List NodeM, repElems st = true →
       simp [encodeElems, hx', absElems, canonList, repElems, h1, h2, h3, h4]
 theorem encodePairs_spec : ∀ st : List PairM, repPairs st = true →
     (encodePairs st).1 = canonPairs (absPairs st) ∧ absPairs (encodePairs st).2 = absPairs st ∧
-    repPairs (encodePairs st).2 = true ∧ (encodePairs st).2.map pairLive = st.map pairLive
+    repPairs (encodePairs st).2 = true ∧ (encodePairs st).2.map skelOf = st.map skelOf
   | [], _ => by simp [encodePairs, absPairs, canonPairs, repPairs]
   | (hh, k, v) :: xs, h => by
     unfold repPairs at h
     rw [Bool.and_eq_true] at h
     obtain ⟨h1, h2, h3, h4⟩ := encodePairs_spec xs h.2
     by_cases hx : v.live
-    · have hr : v.repOk = true := by simpa [hx] using h.1
-      obtain ⟨e1, e2, e3⟩ := encode_spec v hr
+    · have hr : v.repOk = true ∧ hh = some k := by simpa [hx] using h.1
+      obtain ⟨e1, e2, e3⟩ := encode_spec v hr.1
       have el := encode_live v hx
-      simp [encodePairs, hx, absPairs, canonPairs, repPairs, pairLive, el, e1, e2, e3, h1, h2, h3, h4]
+      simp [encodePairs, hx, absPairs, canonPairs, repPairs, pairLive, skelOf, el, e1, e2, e3, hr.2, h1, h2, h3, h4]
     · have hx' : v.live = false := by simpa using hx
-      have hk : k.isEmpty = true := by simpa [hx'] using h.1
-      simp [encodePairs, hx', absPairs, canonPairs, repPairs, pairLive, hk, h1, h2, h3, h4]
+      have hk : k.isEmpty = true ∧ hh.isNone = true := by simpa [hx'] using h.1
+      simp [encodePairs, hx', absPairs, canonPairs, repPairs, pairLive, skelOf, hk.1, hk.2, h1, h2, h3, h4]
 end
 
 end SonicSpec.Ast
